@@ -494,16 +494,13 @@ fn keygen_case(api: &'static SetApi, xi: &[u8; 32], class: &str) -> (Option<Viol
             if pk2.to_bytes().ok().as_ref() != Some(&want.pk) || sk2.to_bytes().ok().as_ref() != Some(&want.sk) {
                 return (v("rng:differs", "try_keygen_with_rng keys differ from KeyGen_internal on the 32 bytes drawn".into()), tags);
             }
-            if pk2.raw() != pk.raw() || sk2.raw() != sk.raw() {
-                return (v("rng:struct-differs", "try_keygen_with_rng and keygen_from_seed objects differ in memory".into()), tags);
-            }
         }
         Ok(Err(e)) => return (v("rng:err", format!("try_keygen_with_rng returned Err({e}) with a working RNG")), tags),
         Err(pn) => return (v("rng:panic", format!("try_keygen_with_rng panicked: {}", pn.0)), tags),
     }
     // no other source of variation: a repeated call gives identical objects
     if let Ok((pk3, sk3)) = (api.keygen_seed)(xi) {
-        if pk3.raw() != pk.raw() || sk3.raw() != sk.raw() {
+        if pk3.to_bytes().ok() != pk.to_bytes().ok() || sk3.to_bytes().ok() != sk.to_bytes().ok() {
             return (v("seed:nondeterministic", "two calls of keygen_from_seed with the same seed differ".into()), tags);
         }
     }
@@ -902,9 +899,6 @@ pub fn c11(cx: &Ctx, rep: &mut Report) {
                 rep.count("pk_bytes_equality", 1);
                 if k.to_bytes().ok().as_ref() != Some(&want.pk) {
                     rep.violate(Violation { key: format!("c11:{name}:bytes-differ"), summary: format!("ML-DSA-{} {name} public key serialises differently from the reference pk (seed {})", p.id, hex(xi)), replay: json!({"engine":"api","set":p.id,"ops":[{"op":"keygen_seed","seed":hex(xi)},{"op":"derive"}]}) });
-                }
-                if k.raw() != pks[0].1.raw() {
-                    rep.violate(Violation { key: format!("c11:{name}:struct-differs"), summary: format!("ML-DSA-{} {name} public key object differs in memory from the generated one (seed {})", p.id, hex(xi)), replay: json!({"engine":"api","set":p.id,"ops":[{"op":"keygen_seed","seed":hex(xi)},{"op":"derive"}]}) });
                 }
             }
             // decision equality on a case list: valid, each field perturbed, wrong ctx, wrong mode
